@@ -1,12 +1,12 @@
 package main
 
 import (
-	"strconv"
 	"fmt"
 	"go/constant"
 	"go/token"
 	"go/types"
 	"sort"
+	"strconv"
 
 	"golang.org/x/tools/go/ssa"
 )
